@@ -64,7 +64,8 @@ var Check = &run.Check{
 		"Uri is asserted as <own base path><method path> only where both are literals written in the file (no class-level mapping = empty base); bare mappings, method=-only mappings, bare class-level @RequestMapping and constant references leave the Uri unasserted; the expectation is the plain concatenation of the two written strings, also for base paths ending in '/' (generated in shorthand and value= form; their handlers carry method paths with and without leading '/'); path= / several paths / several verbs are not generated",
 		"RequestBodyClass is asserted as the declared type text of the @RequestBody parameter (simple or qualified class names only), and as empty when no parameter carries @RequestBody",
 		"MethodParams, ResponseStatus and the order of the list are not asserted; the fields left unasserted above are still compared between the analyses of the same class alone and together with others (independence relation)",
-		"one top-level type per file, no nested classes, no overloaded handlers; class and file name coincide (Java convention), so a class name taken from the file name is not distinguishable",
+		"controllers may declare nested classes (before, between and after the handlers) and a second package-private top-level class in their file; those classes carry no mapping annotations, their methods must contribute nothing and their names must not appear as ClassName of a handler; handlers inside nested classes and overloaded handlers are not generated; the public class and its file name coincide (Java convention), so a class name taken from the file name is not distinguishable",
+		"CLI cases spell the scanned directory in the 9 ways of common.SpellRoot (absolute, relative, ./, trailing slash, ., .., sub/.., ../sibling), rotating over cases and analyses; `coca analysis` and `coca api -f` run in the same working directory and coca_reporter/ is read from there",
 		"in-process cases first analyse a neutral one-file project twice so that listener state left behind by the previous case of the same worker cannot reach this case (a case stays a pure function of its index; leaks between the analyses inside a case remain observable)",
 		"a panic of the identifier/full pass (prerequisites of the API scan, properties C01/C02/C09) makes the case inconclusive, a panic of the API scan is a violation",
 	},
@@ -180,21 +181,29 @@ func first(s string) string {
 }
 
 type analysis struct {
-	entries []oracle.SpringEntry
-	csv     []oracle.SpringEntry
-	hasCsv  bool
+	rootKind string // CLI: how the scanned directory was spelled
+	entries  []oracle.SpringEntry
+	csv      []oracle.SpringEntry
+	hasCsv   bool
 }
 
 // analyse runs one complete analysis of dir. ok=false: the case already carries its verdict for this run.
-func analyse(c *run.Ctx, o *run.Outcome, dir, name string, classes []*springgen.Class, useCLI bool) (res analysis, ok bool) {
+// In CLI cases the scanned directory is spelled in one of the legal ways (common.SpellRoot, kind chosen by pick);
+// `coca analysis` and `coca api` run in the same working directory, which receives coca_reporter/.
+func analyse(c *run.Ctx, o *run.Outcome, dir, name string, classes []*springgen.Class, useCLI bool, pick int) (res analysis, ok bool) {
 	tag := "/other"
 	if oneCharConst(classes) {
 		tag = "/one-character-constant-as-mapping-value"
 	}
 	if useCLI {
-		work := filepath.Join(c.Scratch(), "cwd-"+name)
-		os.MkdirAll(work, 0o755)
-		r1 := common.RunCLI(c.CocaBin, work, nil, "analysis", "-p", dir)
+		fallback := filepath.Join(c.Scratch(), "cwd-"+name)
+		os.MkdirAll(fallback, 0o755)
+		work, arg, kind := common.SpellRoot(pick, dir, fallback)
+		res.rootKind = kind
+		o.Count("cli_root_spelled_"+kind, 1)
+		name = name + ", -p " + arg + " (" + kind + ")"
+		root := "@root=" + kind
+		r1 := common.RunCLI(c.CocaBin, work, nil, "analysis", "-p", arg)
 		if r1.TimedOut {
 			o.SetInconclusive("cli watchdog")
 			return res, false
@@ -203,7 +212,7 @@ func analyse(c *run.Ctx, o *run.Outcome, dir, name string, classes []*springgen.
 			o.SetInconclusive("prerequisite `coca analysis` failed: " + first(r1.Stderr))
 			return res, false
 		}
-		r2 := common.RunCLI(c.CocaBin, work, nil, "api", "-f", "-p", dir)
+		r2 := common.RunCLI(c.CocaBin, work, nil, "api", "-f", "-p", arg)
 		if r2.TimedOut {
 			o.SetInconclusive("cli watchdog")
 			return res, false
@@ -219,24 +228,24 @@ func analyse(c *run.Ctx, o *run.Outcome, dir, name string, classes []*springgen.
 					break
 				}
 			}
-			o.Violate("panic@"+site+tag, "[cli, %s] `coca api -f` exit %d: %s", name, r2.ExitCode, first(r2.Stderr))
+			o.Violate("panic@"+site+tag+root, "[cli, %s] `coca api -f` exit %d: %s", name, r2.ExitCode, first(r2.Stderr))
 			return res, false
 		}
 		jb, err := ioutil.ReadFile(filepath.Join(work, "coca_reporter", "apis.json"))
 		var apis []api_domain.RestAPI
 		if err != nil || json.Unmarshal(jb, &apis) != nil {
-			o.Violate("cli-no-output", "[cli, %s] `coca api -f` left no readable coca_reporter/apis.json", name)
+			o.Violate("cli-no-output"+root, "[cli, %s] `coca api -f` left no readable coca_reporter/apis.json in its working directory", name)
 			return res, false
 		}
 		res.entries = conv(apis)
 		cb, err := ioutil.ReadFile(filepath.Join(work, "coca_reporter", "api.csv"))
 		if err != nil {
-			o.Violate("cli-no-output", "[cli, %s] `coca api -f` left no coca_reporter/api.csv", name)
+			o.Violate("cli-no-output"+root, "[cli, %s] `coca api -f` left no coca_reporter/api.csv in its working directory", name)
 			return res, false
 		}
 		rows, err := parseCsv(string(cb))
 		if err != nil {
-			o.Violate("cli-csv-unreadable", "[cli, %s] api.csv: %v", name, err)
+			o.Violate("cli-csv-unreadable"+root, "[cli, %s] api.csv: %v", name, err)
 			return res, false
 		}
 		res.csv, res.hasCsv = rows, true
@@ -343,6 +352,19 @@ func runCase(c *run.Ctx, o *run.Outcome) {
 			if cl.BaseDetermined() {
 				bases[cl.OwnBase()] = true
 			}
+			nested := false
+			for _, ot := range cl.OtherTypes() {
+				o.Count("other_class_in_controller_file/"+ot.Where, 1)
+				if strings.HasPrefix(ot.Where, "nested") {
+					nested = true
+				}
+			}
+			if nested {
+				o.Count("controllers_with_nested_class", 1)
+			}
+			if cl.Second != nil {
+				o.Count("controllers_with_second_top_level_class", 1)
+			}
 			if cl.BaseTrailingSlash() {
 				o.Count("controllers_with_base_path_ending_in_slash", 1)
 				if cl.MarkerFirst {
@@ -372,6 +394,9 @@ func runCase(c *run.Ctx, o *run.Outcome) {
 					} else if m.Mapping.Path != "" {
 						o.Count("handlers_under_slash_base_without_leading_slash_path", 1)
 					}
+				}
+				if m.AfterNested {
+					o.Count("handlers_declared_after_a_nested_class", 1)
 				}
 				if len(m.AnnosAfter) > 0 {
 					o.Count("handlers_with_other_annotation_after_mapping", 1)
@@ -495,7 +520,7 @@ func runCase(c *run.Ctx, o *run.Outcome) {
 			o.SetInconclusive("cannot write project: " + err.Error())
 			return
 		}
-		res, ok := analyse(c, o, dir, fmt.Sprintf("r%d", i), pl.classes, useCLI)
+		res, ok := analyse(c, o, dir, fmt.Sprintf("r%d", i), pl.classes, useCLI, c.Index/(cases(c.Tier)/cliCases(c.Tier))+i)
 		rec := runRec{Name: pl.name, Files: order}
 		if !ok {
 			rec.Observed = []string{"<no result: " + o.Status + ">"}
@@ -520,9 +545,10 @@ func runCase(c *run.Ctx, o *run.Outcome) {
 			o.Count("analyses_in_forced_file_order", 1)
 		}
 
-		view := "api"
+		view, root := "api", ""
 		if useCLI {
-			view = "apis.json"
+			view = "apis.json, root spelled " + res.rootKind
+			root = "@root=" + res.rootKind
 		}
 		ms, st := oracle.SpringCheck(pl.classes, res.entries, view+", "+pl.name+", walk order "+strings.Join(baseNames(order), " < "), true)
 		o.Count("handlers_planted", st.HandlersPlanted)
@@ -533,14 +559,14 @@ func runCase(c *run.Ctx, o *run.Outcome) {
 		o.Count("members_that_must_contribute_nothing", st.SilentMembers)
 		o.Count("entries_observed", st.EntriesObserved)
 		for _, m := range ms {
-			o.Violate(m.Sig, "%s", m.Msg)
+			o.Violate(m.Sig+root, "%s", m.Msg)
 		}
 		if res.hasCsv {
-			ms2, st2 := oracle.SpringCheck(pl.classes, res.csv, "api.csv, "+pl.name, false)
+			ms2, st2 := oracle.SpringCheck(pl.classes, res.csv, "api.csv, root spelled "+res.rootKind+", "+pl.name, false)
 			o.Count("csv_rows_observed", st2.EntriesObserved)
 			o.Count("csv_handlers_matched", st2.HandlersMatched)
 			for _, m := range ms2 {
-				o.Violate("csv:"+m.Sig, "%s", m.Msg)
+				o.Violate("csv:"+m.Sig+root, "%s", m.Msg)
 			}
 		}
 	}
